@@ -35,6 +35,18 @@ fn build_pool(ctx: &mut Ctx, n_rules: usize, n_data: usize) -> (Vec<(Value, Valu
         json!({"/": [1]}), json!({"+": ["x"]}), json!({"substr": [{"var": "s"}, -2]}), json!({"missing": ["a", "z", "b.c"]}), json!({"all": [{"var": "b.c"}, {">": [{"var": ""}, 0]}]}),
         json!({"merge": [{"var": "b.c"}, {"var": ""}]}), json!({"==": [{"var": "a"}, "1"]}), json!({"in": [{"var": "a"}, {"var": "b.c"}]}), json!([{"var": "a"}]), json!({"filter": [{"var": ""}, {"%": [{"var": ""}, 2]}]}),
     ];
+    // effect probes: a `log` in every position of every lazy / higher-order operator, deciding and
+    // non-deciding, so that "each evaluated log prints exactly one line" is judged on every path
+    rules.extend(vec![
+        json!({"or": [0, {"!": [{"log": "or-last-falsy"}]}]}), json!({"or": [{"!": [{"log": "or-a"}]}, {"!": [{"log": "or-b"}]}]}), json!({"or": [{"log": "or-first"}, {"log": "or-never"}]}), json!({"or": [{"!": [{"log": "or-only"}]}]}),
+        json!({"and": [{"log": "and-a"}, {"log": "and-b"}]}), json!({"and": [1, {"!": [{"log": "and-last-falsy"}]}]}), json!({"and": [{"!": [{"log": "and-first"}]}, {"log": "and-never"}]}), json!({"and": [{"log": "and-only"}]}),
+        json!({"if": [{"!": [{"log": "if-c"}]}, {"log": "if-t"}, {"log": "if-e"}]}), json!({"if": [{"log": "if-c2"}, {"log": "if-t2"}, {"log": "if-e2"}]}), json!({"if": [{"!": [{"log": "c1"}]}, 1, {"!": [{"log": "c2"}]}, 2]}), json!({"?:": [{"var": "a"}, {"log": "tern-t"}, {"log": "tern-e"}]}), json!({"if": [{"log": "if-single"}]}),
+        json!({"map": [[1, 2], {"log": {"var": ""}}]}), json!({"filter": [[0, 1, 2], {"log": {"var": ""}}]}), json!({"reduce": [[1, 2], {"log": {"+": [{"var": "current"}, {"var": "accumulator"}]}}, {"log": "init"}]}),
+        json!({"all": [[1, 0, 2], {"log": {"var": ""}}]}), json!({"some": [[0, 1, 2], {"log": {"var": ""}}]}), json!({"none": [[0, 0], {"log": {"var": ""}}]}), json!({"all": [[{"log": "el-1"}, {"log": "el-2"}], true]}),
+        json!({"var": [{"log": "a"}]}), json!({"var": ["zz", {"log": "dflt"}]}), json!({"cat": [{"log": "x"}, {"log": "y"}]}), json!({"+": [{"log": 1}, {"log": 2}]}), json!({"==": [{"log": 1}, {"log": 1}]}), json!({"<": [{"log": 1}, {"log": 2}, {"log": 3}]}),
+        json!({"merge": [{"log": [1]}, {"log": 2}]}), json!({"in": [{"log": "a"}, {"log": "abc"}]}), json!({"substr": [{"log": "hello"}, {"log": 1}]}), json!({"max": [{"log": 1}, {"log": 2}]}), json!({"missing": [{"log": "a"}, "z"]}), json!({"!": [{"log": 0}]}),
+        json!({"or": [{"and": [{"log": "n1"}, {"!": [{"log": "n2"}]}]}, {"if": [{"!": [{"log": "n3"}]}, 1, {"!": [{"log": "n4"}]}]}]}), json!({"log": {"log": "twice-nested"}}),
+    ]);
     let mut g = RuleGen::new();
     g.probes = 8;
     g.poison = 4;
